@@ -127,7 +127,7 @@ def run(ctx):
     reach = g.reachable(('n',))
     nun = 0
     for n in g.nodes:
-        if n.id not in reach or n.frame is not g.top:
+        if n.id not in reach:
             continue
         for e in E.of(n):
             if e[0] == 'UNLINK':
